@@ -2,7 +2,7 @@
 import random
 from .. import renderer as R
 
-PROPS = ["C14"]
+PROPS = ["C14", "C14_thms"]
 
 
 def gen(rnd, tier):
